@@ -24,11 +24,43 @@ def _judge(run):
 
 P = ScenarioProperty(
     PROP,
-    {"levels": (2, 3), "cap": (8, 12), "sprout_kinds": ["simple", "nbc", "composed", "composed", "composed"], "force_far": True, "generators": ["NBC", "NBC", "NBC", "NBCLocal", "BestPerDeme", "Scripted"], "level_limit_min": 2, "gsc_kinds": ["MetaepochLimit", "SingularProblemEvalLimitReached", "FitnessEvalLimitReached", "AllStopped"]},
+    {"levels": (2, 3), "cap": (8, 12), "sprout_kinds": ["simple", "nbc", "composed", "composed", "composed"], "force_far": True, "second_run": True, "generators": ["NBC", "NBC", "NBC", "NBCLocal", "BestPerDeme", "Scripted"], "level_limit_min": 2, "gsc_kinds": ["MetaepochLimit", "SingularProblemEvalLimitReached", "FitnessEvalLimitReached", "AllStopped"]},
     lambda sc: [C09Checker(sc)],
     _judge,
     quick=1600,
     thorough=30000,
 )
-run_shard = P.run_shard
+# second profile: children that finish early (their centroids stay where they are) while the parent keeps proposing
+# candidates from the same basin, NBC_FarEnough over ALL siblings, and the same mechanism objects handed to a second
+# tree - the situation in which remembered (instead of current) centroids of finished demes go wrong
+P_FINISHED = ScenarioProperty(
+    PROP,
+    {
+        "levels": (2, 2),
+        "cap": (8, 12),
+        "sprout_kinds": ["nbc", "nbc", "composed"],
+        "force_far": True,
+        "generators": ["NBC"],
+        "level_limit_min": 2,
+        "second_run": True,
+        "root_lsc_kinds": ["DontStop"],
+        "lsc_kinds": ["MetaepochLimit", "MetaepochLimit", "DontRun"],
+        "gsc_kinds": ["Never", "Never", "MetaepochLimit"],
+        "families": ["sphere", "twobasin", "rastrigin", "abssum"],
+        "root_engines": ["SEA", "SEA", "DE", "SHADE", "SEAWithCrossover"],
+        "hibernation": 0.0,
+    },
+    lambda sc: [C09Checker(sc)],
+    _judge,
+    quick=640,
+    thorough=12000,
+)
+
+
+def run_shard(tier, seed, shard, nshards, tally, scale=1.0):
+    fs = P.run_shard(tier, seed, shard, nshards, tally, scale)
+    fs += P_FINISHED.run_shard(tier, seed, shard, nshards, tally, scale, salt=29)
+    return fs
+
+
 replay = P.replay
